@@ -4,6 +4,7 @@ import os
 import random
 import re
 import struct
+import time
 
 from lib import common, terms
 from lib.common import Report, run_tlc, tlc_ok, run_jobs
@@ -300,6 +301,7 @@ def run(tier):
                 "resp. (printer, kind, magnitude class, text shape)")
 
     # ---- spellings ----
+    t_phase = time.time()
     B = 150
     CH = 400 * B          # spellings per round of jobs (bounds the memory held for results)
     legs = [("codes", "X1", "E1", "nc"), ("chars", "X2", "E2", "nc"), ("read", "X3", "E3", "rd")]
@@ -352,6 +354,9 @@ def run(tier):
                           {"vector": v, "leg": leg, "expected": exp, "got": got, "query": lex_query(v["s"])})
     for v in lexv[:: max(1, len(lexv) // 3)][:3]:
         rep.sample({"text": "".join(chr(c) for c in v["s"]), "number_codes": v["nc"], "read": v["rd"]})
+
+    rep.extra["replay_spellings_wall_s"] = round(time.time() - t_phase, 1)
+    t_phase = time.time()
 
     # ---- printing round trip ----
     nums = [("int", n, None) for n in ints]
@@ -438,6 +443,8 @@ def run(tier):
     if unbuilt:
         raise common.ToolError("could not construct %d round-trip numbers (arithmetic outside this property), e.g. %r"
                                % (len(unbuilt), unbuilt[:3]))
+
+    rep.extra["replay_roundtrip_wall_s"] = round(time.time() - t_phase, 1)
 
     # ---- the printed texts, read by the specification ----
     if trace:
